@@ -32,7 +32,9 @@ META = {
         "get_nearest_symbol_table, SymbolTableCollection shared/fresh, SymbolTable(op).lookup, "
         "traits.SymbolTable.lookup_symbol, "
         "Operation.verify) with the Lean driver line by line, and with an independent reference resolver "
-        "written from the property sentence."
+        "written from the property sentence. Trees contain unregistered operations (model: neither table nor "
+        "symbol), and trees are also edited in place after having been looked at, the edited tree being judged by "
+        "the same model and reference (a new collection is a function of the tree as it is now)."
     ),
     "technique": "Lean 4 proofs about a hand model of the three resolvers + exhaustive small-scope and random differential correspondence with the real resolvers + independent reference resolver",
     "level_note": (
@@ -46,17 +48,35 @@ META = {
         "or 'nothing' is accepted; traits.lookup_symbol raising its documented ValueError when no ancestor is "
         "a symbol table counts as 'nothing'; every Python str is a legal symbol name (the empty string included: "
         "it verifies, prints as @\"\" and parses back) and two names are the same name iff the strings are equal "
-        "(no case folding, stripping or unicode normalisation). Excluded: unregistered operations, tables with several "
-        "regions/blocks, symbol ops without sym_name, invalid sym_visibility strings, IR mutation between "
-        "cached lookups (the cache is modelled as a function of the unchanged tree)."
+        "(no case folding, stripping or unicode normalisation); an unregistered operation (what a parser with "
+        "allow_unregistered builds) is neither a symbol nor a symbol table, whatever attributes it carries — the "
+        "nearest enclosing table of an operation inside it is the next registered table further out (the reading of "
+        "utils.symbol_table: has_trait(SymbolTable, value_if_unregistered=False)); the sentence speaks about the "
+        "module as it is when the lookup is made: after the module was edited in place (operations detached, "
+        "inserted, moved; SymbolTable.remove on some collection's table object), a SymbolTableCollection created "
+        "after the edit and the static lookups are held to the edited tree, no matter which collections or lookups "
+        "looked at the module before. Excluded: tables with several "
+        "regions/blocks, symbol ops without sym_name, invalid sym_visibility strings, IR mutation during the life "
+        "of one collection (a collection is a snapshot by design: the cache is modelled as a function of the tree "
+        "at the time the collection is created; every edited tree is asked through new collections only)."
     ),
     "rule": (
         "One evaluation = one (tree, start operation, reference form, reference) query run through all entry "
         "points. Trees: every ordered tree with ≤3 operations (thorough: also 4 operations over a reduced 8-label alphabet) over labels "
-        "{module unnamed/@0/@1 × public/private, func @0/@1 × public/private, plain op, plain op with a decoy sym_name=@0} (terminators added "
-        "where the verifier needs them), then seeded random trees of 2–40 operations (modules, gpu.module, "
+        "{module unnamed/@0/@1 × public/private, func @0/@1 × public/private, plain op, plain op with a decoy sym_name=@0; "
+        "in trees with ≤2 operations also an unregistered op} (terminators added "
+        "where the verifier needs them), two fixed trees with operations inside unregistered wrapper ops, then seeded "
+        "random trees of 2–40 operations (modules, gpu.module, "
         "func.func with public/private/nested/absent visibility, test.op_with_symbol, test.op with decoy "
-        "sym_name, multi-region/multi-block plain ops, duplicate names inside and across tables). Names are "
+        "sym_name, multi-region/multi-block plain and unregistered ops (about a third of the plain ops are "
+        "unregistered), duplicate names inside and across tables). Edit histories: before each edit one collection "
+        "and the static entry points resolve every name of the tree from every operation, then the same operations "
+        "are edited in place and all queries are asked again of the edited tree through new collections — every "
+        "single edit of the trees with ≤2 operations (detach each operation; insert a public func at the front and the end of every block, a private func at "
+        "the front, a module holding a nested func at the end; move each operation to the front of "
+        "every other block; SymbolTable.remove of each symbol on the earlier collection's table), one seeded edit of "
+        "a seed-rotated twelfth (thorough: all) of the 3-operation trees, 1–2 seeded edits of a third (thorough: 80%) "
+        "of the random trees. Names are "
         "numbered; a tree is built with the numbers spelled s0, s1, … and again (all trees with ≤2 operations under "
         "each of 13 fixed spellings, a seed-rotated third of the 3-operation trees under one of them, thorough: "
         "each under two; half of the random trees under a random spelling) with pairwise distinct awkward strings "
@@ -138,6 +158,35 @@ def finalize(root: Node) -> list[Node]:
     return nodes
 
 
+def node_at(root: Node, path: Any) -> Node:
+    n = root
+    for i in path:
+        n = n.children()[i]
+    return n
+
+
+def block_of(n: Node) -> tuple[Node, int, int, int]:
+    p = n.parent
+    assert p is not None
+    for ri, r in enumerate(p.regions):
+        for bi, b in enumerate(r):
+            for pos, x in enumerate(b):
+                if x is n:
+                    return p, ri, bi, pos
+    raise core.InfraError("node not in its parent")
+
+
+def insert_at(p: Node, ri: int, bi: int, pos: int, new: Node) -> None:
+    """spec and real block hold the same operations in the same order"""
+    blk = p.op.regions[ri].blocks[bi]
+    ops = list(blk.ops)
+    if pos < len(ops):
+        blk.insert_op_before(new.op, ops[pos])
+    else:
+        blk.add_op(new.op)
+    p.regions[ri][bi].insert(pos, new)
+
+
 def sym_str(name: int, spell: Any = None) -> str:
     """the sym_name string of name number `name` under the spelling `spell` (None = s0, s1, …)"""
     if spell is not None and name < len(spell):
@@ -204,6 +253,18 @@ def check_spelling(spell: Any, count: int) -> None:
         raise core.InfraError(f"spelling is not injective: {names!r}")
 
 
+_UNREG: list[Any] = []
+
+
+def unregistered_class() -> Any:
+    """one UnregisteredOp class (`"foreign.op"`): the operation a parser with allow_unregistered builds"""
+    if not _UNREG:
+        from xdsl.dialects.builtin import UnregisteredOp
+
+        _UNREG.append(UnregisteredOp.with_name("foreign.op"))
+    return _UNREG[0]
+
+
 def build_op(n: Node, spell: Any = None) -> Any:
     """the real xDSL operation for a spec node"""
     from xdsl.dialects import gpu
@@ -229,6 +290,10 @@ def build_op(n: Node, spell: Any = None) -> Any:
         if n.name is not None:
             attrs["sym_name"] = StringAttr(sym_str(n.name, spell))  # decoy: not a symbol op
         op = TestOp(attributes=attrs, regions=regions)
+    elif n.kind == "unreg":
+        if n.name is not None:
+            attrs["sym_name"] = StringAttr(sym_str(n.name, spell))  # decoy: an unregistered op is no symbol op
+        op = unregistered_class().create(attributes=attrs, regions=regions)
     elif n.kind == "term":
         op = TestTermOp()
     elif n.kind == "ret":
@@ -305,7 +370,10 @@ def ref_resolve(start: Node, names: list[int], need_table: bool = True, refuse_p
 class Impl:
     """One generated tree built from real ops, with all entry points."""
 
-    def __init__(self, root: Node, spell: Any = None):
+    def __init__(self, root: Node, spell: Any = None, gone: list[Any] | None = None):
+        """`gone` is None: build the real ops of the spec.  Otherwise the spec's ops exist already (the tree
+        was edited in place) and `gone` holds the operations earlier states of the tree contained and this
+        one does not (kept alive so that their identity stays theirs)."""
         from xdsl.utils.exceptions import VerifyException
 
         self.root = root
@@ -315,7 +383,11 @@ class Impl:
         self.checked = max(top, len(self.spell or ()))
         check_spelling(self.spell, self.checked)
         self.number = {sym_str(i, self.spell): i for i in range(self.checked)}
-        build_op(root, self.spell)
+        if gone is None:
+            build_op(root, self.spell)
+        self.gone: list[Any] = list(gone or [])
+        self.stale = {id(o) for o in self.gone}
+        self.warmed: Any = None
         self.ids = {id(n.op): n.id for n in self.nodes}  # identity map, never leaves this object
         try:
             root.op.verify()
@@ -334,7 +406,59 @@ class Impl:
             return "none"
         if isinstance(r, list):
             return ",".join(self.show(x) for x in r)
-        return str(self.ids.get(id(r), "foreign"))
+        return str(self.ids.get(id(r), "stale" if id(r) in self.stale else "foreign"))
+
+    # edit histories ----------------------------------------------------------------------
+    def warm(self) -> None:
+        """An earlier user of the tree (a pass that resolves symbols): one collection and the static entry
+        points look every name of the tree up from every operation, so whatever any of them memoises about
+        the tree as it is now has been memoised before the tree is edited."""
+        from xdsl import traits
+        from xdsl.utils.symbol_table import SymbolTable, SymbolTableCollection
+
+        c = SymbolTableCollection()
+        names = sorted(names_in_tree(self.nodes) | {0})
+        for n in self.nodes:
+            for nm in names:
+                s = sym_str(nm, self.spell)
+                for f in (c.lookup_nearest_symbol_from, SymbolTable.lookup_nearest_symbol_from,
+                          traits.SymbolTable.lookup_symbol):
+                    try:
+                        f(n.op, s)
+                    except Exception:  # noqa: BLE001
+                        pass
+        self.warmed = c
+
+    def apply_edit(self, edit: list[Any]) -> "Impl":
+        """edit the spec and the real operations in place; -> the adapter of the edited tree (same ops)"""
+        root, gone = self.root, list(self.gone)
+        kind = edit[0]
+        if kind == "del":  # detach the operation at a path
+            v = node_at(root, edit[1])
+            p, ri, bi, pos = block_of(v)
+            p.regions[ri][bi].pop(pos)
+            v.op.detach()
+            gone.extend(x.op for x in v.walk())
+        elif kind == "ins":  # a new operation into block (ri, bi) of the operation at a path
+            p = node_at(root, edit[1])
+            new = Node.from_json(edit[5])
+            build_op(new, self.spell)
+            insert_at(p, edit[2], edit[3], edit[4], new)
+        elif kind == "mov":  # both paths are paths of the tree before the edit
+            v, p = node_at(root, edit[1]), node_at(root, edit[2])
+            q, qri, qbi, qpos = block_of(v)
+            q.regions[qri][qbi].pop(qpos)
+            v.op.detach()
+            insert_at(p, edit[3], edit[4], min(edit[5], len(p.regions[edit[3]][edit[4]])), v)
+        elif kind == "rm":  # SymbolTable.remove on the earlier collection's table object; the IR stays as it is
+            t, v = node_at(root, edit[1]), node_at(root, edit[2])
+            try:
+                self.warmed.get_symbol_table(t.op).remove(v.op)
+            except Exception:  # noqa: BLE001
+                pass
+        else:
+            raise core.InfraError(f"unknown edit {edit!r}")
+        return Impl(root, self.spell, gone=gone)
 
     def call(self, f: Any, *a: Any, **kw: Any) -> str:
         try:
@@ -491,6 +615,7 @@ SMALL_LABELS: list[tuple[str, int | None, str | None]] = (
     + [("mod", nm, v) for nm in (0, 1) for v in (None, "private")]
     + [("func", nm, v) for nm in (0, 1) for v in ("public", "private")]
     + [("op", None, None), ("op", 0, None)]  # the second one carries a decoy sym_name attribute
+    + [("unreg", None, None)]  # an unregistered operation: neither a symbol nor a symbol table
 )
 
 
@@ -541,10 +666,37 @@ SMALL_LABELS_4: list[tuple[str, int | None, str | None]] = [
 
 def small_trees(k: int) -> Iterator[Node]:
     """all labelled ordered trees with exactly k operations (before terminators are added)"""
-    alphabet = SMALL_LABELS if k <= 3 else SMALL_LABELS_4
+    # the unregistered operation is a label of the trees with ≤2 operations only (larger ones: random part)
+    alphabet = SMALL_LABELS if k <= 2 else SMALL_LABELS[:-1] if k == 3 else SMALL_LABELS_4
     for shape in shapes(k):
         for labels in itertools.product(alphabet, repeat=k):
             yield label_shape(shape, iter(labels))
+
+
+def edit_refs() -> list[tuple[str, list[int]]]:
+    """the references asked of the edited small trees: flat as str and as SymbolRefAttr, all depth-1, two depth-2"""
+    refs: list[tuple[str, list[int]]] = []
+    for nm in (0, 1, 2):
+        refs += [("s", [nm]), ("r", [nm])]
+    refs += [("r", [a, b]) for a in (0, 1, 2) for b in (0, 1, 2)]
+    refs += [("r", [0, 1, 0]), ("r", [0, 0, 1])]
+    return refs
+
+
+def corpus() -> list[Node]:
+    """fixed trees beyond the exhaustive scope (minimal inputs of repaired defects stay here): operations
+    inside regions of unregistered operations, at the top level and inside a nested module"""
+    def wrapper() -> Node:
+        return make_node("unreg", None, None, [[[make_node("op", None, None, [])]]])
+
+    return [
+        make_node("mod", None, None, [[[make_node("func", 0, "public", []), wrapper()]]]),
+        make_node("mod", None, None, [[[
+            make_node("func", 0, "private", []),
+            make_node("mod", 1, None, [[[make_node("func", 0, "nested", []), make_node("func", 1, "private", []),
+                                         wrapper()]]]),
+            wrapper()]]]),
+    ]
 
 
 def small_refs() -> list[tuple[str, list[int]]]:
@@ -609,7 +761,8 @@ def random_tree(rng: Any, budget: int, unique: bool, pool: int) -> Node:
         if not deep and rng.random() < 0.55:
             for _ in range(rng.randint(1, 2)):
                 regions.append([block(depth + 1, False, rng.randint(0, 2)) for _ in range(rng.randint(1, 2))])
-        return make_node("op", decoy, rng.choice(VIS_CHOICES) if decoy is not None else None, regions)
+        return make_node("unreg" if rng.random() < 0.35 else "op", decoy,
+                         rng.choice(VIS_CHOICES) if decoy is not None else None, regions)
 
     r = rng.random()
     if r < 0.85:
@@ -619,12 +772,12 @@ def random_tree(rng: Any, budget: int, unique: bool, pool: int) -> Node:
     elif r < 0.95:
         root_kind = "func"
     else:
-        root_kind = "op"
+        root_kind = "op" if rng.random() < 0.5 else "unreg"
     left[0] -= 1
     body = block(1, root_kind in TABLE_KINDS, rng.randint(1, 6))
-    name = rng.randrange(pool) if root_kind != "op" and (root_kind != "mod" or rng.random() < 0.3) else None
+    name = rng.randrange(pool) if root_kind not in ("op", "unreg") and (root_kind != "mod" or rng.random() < 0.3) else None
     return make_node(root_kind, name, rng.choice(VIS_CHOICES) if name is not None else None,
-                     [[body], [block(1, False, 2)]] if root_kind == "op" else [[body]])
+                     [[body], [block(1, False, 2)]] if root_kind in ("op", "unreg") else [[body]])
 
 
 def random_refs(rng: Any, nodes: list[Node], pool: int, count: int) -> list[tuple[str, list[int]]]:
@@ -667,6 +820,121 @@ def random_refs(rng: Any, nodes: list[Node], pool: int, count: int) -> list[tupl
 
 
 # ---------------------------------------------------------------------------------------------
+# Edit histories: the module is looked at, edited in place (still the same operations), looked at again
+# ---------------------------------------------------------------------------------------------
+
+def slots(nodes: list[Node]) -> list[tuple[Node, int, int, int]]:
+    """(operation, region, block, number of positions before a trailing terminator) of every block"""
+    out = []
+    for n in nodes:
+        for ri, r in enumerate(n.regions):
+            for bi, b in enumerate(r):
+                out.append((n, ri, bi, len(b) - (1 if b and b[-1].kind in ("term", "ret") else 0)))
+    return out
+
+
+def inserted_nodes() -> list[Node]:
+    """the operations the small-scope histories insert: a public and a private function, a nested module
+    that brings a nested-visible function along"""
+    return [make_node("func", 0, "public", []), make_node("func", 1, "private", []),
+            make_node("mod", 0, None, [[[make_node("func", 1, "nested", [])]]])]
+
+
+def small_edits(root: Node) -> Iterator[list[Any]]:
+    """every single edit of a small tree: detach each non-root operation, insert a public function at
+    the front and at the end (before the terminator) of every block, a private one at the front, a module at the end, move each operation to the front of
+    every block outside itself, SymbolTable.remove of each symbol on the earlier collection's table"""
+    nodes = finalize(root)
+    movable = [n for n in nodes[1:] if n.kind not in ("term", "ret")]
+    for v in movable:
+        yield ["del", list(v.path)]
+    pub, priv, mod = inserted_nodes()
+    for p, ri, bi, end in slots(nodes):
+        for pos, new in [(0, pub), (end, pub), (0, priv), (end, mod)]:
+            if pos != 0 or new is not pub or end != 0:  # front == end in an empty block: the public func once
+                yield ["ins", list(p.path), ri, bi, pos, new.to_json()]
+    for v in movable:
+        inside = {x.id for x in v.walk()}
+        for p, ri, bi, _ in slots(nodes):
+            if p.id not in inside and (p is not v.parent or block_of(v)[3] != 0):
+                yield ["mov", list(v.path), list(p.path), ri, bi, 0]
+    for v in movable:
+        if v.kind in SYMBOL_KINDS and v.parent is not None and v.parent.kind in TABLE_KINDS:
+            yield ["rm", list(v.parent.path), list(v.path)]
+
+
+def random_edit(rng: Any, root: Node, pool: int) -> list[Any] | None:
+    nodes = finalize(root)
+    movable = [n for n in nodes[1:] if n.kind not in ("term", "ret")]
+    members = [n for n in movable if n.kind in SYMBOL_KINDS and n.parent is not None and n.parent.kind in TABLE_KINDS]
+    sl = slots(nodes)
+    table_slots = [x for x in sl if x[0].kind in TABLE_KINDS]
+
+    def victim() -> Node:
+        return rng.choice(members) if members and rng.random() < 0.7 else rng.choice(movable)
+
+    def slot(exclude: set[int]) -> tuple[Node, int, int, int] | None:
+        cand = [x for x in (table_slots if table_slots and rng.random() < 0.7 else sl) if x[0].id not in exclude]
+        return rng.choice(cand) if cand else None
+
+    r = rng.random()
+    if r < 0.3 and movable:
+        return ["del", list(victim().path)]
+    if r < 0.65 or not movable:
+        x = slot(set())
+        if x is None:
+            return None
+        p, ri, bi, end = x
+        kind = rng.choice(["func", "func", "sym", "mod", "gmod"])
+        inner = [[[make_node("func", rng.randrange(pool), rng.choice(VIS_CHOICES), [])]]] if rng.random() < 0.6 else [[[]]]
+        new = make_node(kind, rng.randrange(pool), rng.choice(VIS_CHOICES), inner if kind in TABLE_KINDS else [])
+        return ["ins", list(p.path), ri, bi, rng.randint(0, end), new.to_json()]
+    if r < 0.9:
+        v = victim()
+        x = slot({y.id for y in v.walk()})
+        if x is None:
+            return None
+        p, ri, bi, end = x
+        return ["mov", list(v.path), list(p.path), ri, bi, rng.randint(0, max(0, end - (1 if p is v.parent else 0)))]
+    if members:
+        v = rng.choice(members)
+        return ["rm", list(v.parent.path), list(v.path)]
+    return None
+
+
+def apply_to_spec(root: Node, edit: list[Any]) -> Node:
+    """the spec after the edit, on a copy (what Impl.apply_edit does to spec and operations together)"""
+    root = Node.from_json(root.to_json())
+    finalize(root)
+    if edit[0] == "del":
+        v = node_at(root, edit[1])
+        p, ri, bi, pos = block_of(v)
+        p.regions[ri][bi].pop(pos)
+    elif edit[0] == "ins":
+        node_at(root, edit[1]).regions[edit[2]][edit[3]].insert(edit[4], Node.from_json(edit[5]))
+    elif edit[0] == "mov":
+        v, p = node_at(root, edit[1]), node_at(root, edit[2])
+        q, qri, qbi, qpos = block_of(v)
+        q.regions[qri][qbi].pop(qpos)
+        b = p.regions[edit[3]][edit[4]]
+        b.insert(min(edit[5], len(b)), v)
+    finalize(root)
+    return root
+
+
+def random_history(rng: Any, root: Node, pool: int, length: int) -> list[Any]:
+    edits: list[Any] = []
+    cur = root
+    for _ in range(length):
+        e = random_edit(rng, cur, pool)
+        if e is None:
+            break
+        edits.append(e)
+        cur = apply_to_spec(cur, e)
+    return edits
+
+
+# ---------------------------------------------------------------------------------------------
 # Running one tree
 # ---------------------------------------------------------------------------------------------
 
@@ -686,9 +954,27 @@ def names_in_tree(nodes: list[Node]) -> set[int]:
 
 
 def run_tree(ctx: core.Ctx, batch: Batch, root: Node, refs: list[tuple[str, list[int]]], tag: str,
-             start_nodes: list[Node] | None = None, spell: Any = None) -> None:
+             start_nodes: list[Node] | None = None, spell: Any = None, edits: list[Any] | None = None,
+             skip_first: bool = False) -> None:
+    """all queries on the tree; then, for every edit of the history `edits`: an earlier user looks at the
+    tree (Impl.warm), the tree is edited in place, and all queries are asked again of the edited tree —
+    the sentence holds of the module as it is when the lookup is made"""
+    root0 = root.to_json()
     impl = Impl(root, spell)
-    tree_key = json.dumps([root.to_json(), spell], separators=(",", ":"))
+    if not skip_first:
+        observe(ctx, batch, impl, refs, tag, start_nodes, root0, [])
+    for i, e in enumerate(edits or []):
+        impl.warm()
+        impl = impl.apply_edit(e)
+        ctx.count(f"{tag}.edits.{e[0]}")
+        starts = impl.nodes if len(impl.nodes) <= 24 else ctx.rng.sample(impl.nodes, 24)
+        observe(ctx, batch, impl, refs, tag + "_edited", starts, root0, list(edits[: i + 1]))
+
+
+def observe(ctx: core.Ctx, batch: Batch, impl: Impl, refs: list[tuple[str, list[int]]], tag: str,
+            start_nodes: list[Node] | None, root0: Any, edits: list[Any]) -> None:
+    root, spell = impl.root, impl.spell
+    tree_key = json.dumps([root.to_json(), spell, edits], separators=(",", ":"))
     if spell is not None:
         ctx.count(f"{tag}.trees_respelled")
         if "" in spell:
@@ -719,18 +1005,25 @@ def run_tree(ctx: core.Ctx, batch: Batch, root: Node, refs: list[tuple[str, list
             if (len(names) > 1 or n.parent is not None) and names[0] in present:
                 ctx.nt(hash((tree_key, n.path, form, tuple(names))))  # 64-bit key (PYTHONHASHSEED=0)
             for entry, sig, got, want in oracle(impl, n, names, obs):
-                report(ctx, root, n, form, names, entry, sig, got, want, spell)
+                report(ctx, Node.from_json(root0), n, form, names, entry, sig, got, want, spell, edits)
+
+
+def history(root: Node, spell: Any, edits: list[Any] | None) -> Impl:
+    """the adapter of the tree after the edit history (each edit preceded by an earlier user's lookups)"""
+    impl = Impl(Node.from_json(root.to_json()), spell)  # a copy: building sets Node.op, the caller's tree stays as is
+    for e in edits or []:
+        impl.warm()
+        impl = impl.apply_edit(e)
+    return impl
 
 
 def failing(root: Node, path: list[int], form: str, names: list[int], entry: str, sig: str,
-            spell: Any = None) -> tuple[str, str] | None:
+            spell: Any = None, edits: list[Any] | None = None) -> tuple[str, str] | None:
     """re-evaluate one query on a fresh build; returns (observed, expected) when it still fails the same way"""
-    impl = Impl(Node.from_json(root.to_json()), spell)  # a copy: building sets Node.op, the caller's tree stays as is
-    n = impl.nodes[0]
     try:
-        for i in path:
-            n = n.children()[i]
-    except IndexError:
+        impl = history(root, spell, edits)
+        n = node_at(impl.nodes[0], path)
+    except (IndexError, AssertionError):
         return None
     obs = impl.query(n, form, names)
     for e, s, got, want in oracle(impl, n, names, obs):
@@ -783,10 +1076,10 @@ def shrink_case(root: Node, n: Node, form: str, names: list[int], entry: str, si
 
 
 def shrink_spelling(root: Node, path: list[int], form: str, names: list[int], entry: str, sig: str,
-                    spell: Any) -> Any:
+                    spell: Any, edits: list[Any] | None = None) -> Any:
     """the plain spelling when the failure does not depend on how the names are spelled, else as few
     respelled names as possible (the others go back to s<i>)"""
-    if spell is None or failing(root, path, form, names, entry, sig, None) is not None:
+    if spell is None or failing(root, path, form, names, entry, sig, None, edits) is not None:
         return None
     cur = list(spell)
     for i in range(len(cur)):
@@ -794,7 +1087,7 @@ def shrink_spelling(root: Node, path: list[int], form: str, names: list[int], en
         if cand[i] == cur[i] or len(set(cand)) != len(cand):
             continue
         try:
-            if failing(root, path, form, names, entry, sig, cand) is not None:
+            if failing(root, path, form, names, entry, sig, cand, edits) is not None:
                 cur = cand
         except core.InfraError:
             pass
@@ -802,14 +1095,27 @@ def shrink_spelling(root: Node, path: list[int], form: str, names: list[int], en
 
 
 def report(ctx: core.Ctx, root: Node, n: Node, form: str, names: list[int], entry: str, sig: str,
-           got: str, want: str, spell: Any = None) -> None:
+           got: str, want: str, spell: Any = None, edits: list[Any] | None = None) -> None:
+    """`root` is the tree before the edit history `edits`, `n` the start operation in the tree after it"""
     site = CALL_SITE[entry]
     path = list(n.path)
+    edits = list(edits or [])
+    size = len(json.dumps(root.to_json())) + len(json.dumps(edits))
     prev = next((f for f in ctx.failures if f.kind == "failing-input" and (f.call_site, f.signature) == (site, sig)),
                 None)
-    if prev is not None and len(json.dumps(prev.case)) <= len(json.dumps(root.to_json())) + 80:
+    if prev is not None and len(json.dumps(prev.case)) <= size + 80:
         return  # a witness of this class at least as small is already recorded (ctx.fail keeps the smallest)
-    if len(list(root.walk())) > 6:
+    if edits:
+        # fewer edits first; the tree itself is not shrunk (the small-scope histories come first)
+        if failing(root, path, form, names, entry, sig, spell, None) is not None:
+            edits = []
+        else:
+            for i in range(len(edits) - 1):
+                cand = edits[:i] + edits[i + 1:]
+                if failing(root, path, form, names, entry, sig, spell, cand) is not None:
+                    edits = cand
+                    break
+    if not edits and len(list(root.walk())) > 6:
         # only shrink when no small witness of this class is known yet
         known_small = any(f.kind == "failing-input" and (f.call_site, f.signature) == (site, sig)
                           and len(json.dumps(f.case)) < 260 for f in ctx.failures)
@@ -817,25 +1123,27 @@ def report(ctx: core.Ctx, root: Node, n: Node, form: str, names: list[int], entr
             return
         root, path, names = shrink_case(root, n, form, names, entry, sig, spell)
     if spell is not None:
-        spell = shrink_spelling(root, path, form, names, entry, sig, spell)
-    again = failing(root, path, form, names, entry, sig, spell)
+        spell = shrink_spelling(root, path, form, names, entry, sig, spell, edits)
+    again = failing(root, path, form, names, entry, sig, spell, edits)
     if again is not None:
         got, want = again
     case = {"tree": root.to_json(), "from": path, "form": form, "names": names, "entry": entry,
-            "text": render(root, spell)}
+            "text": render(root, spell, edits)}
+    if edits:
+        case["edits"] = edits
     if spell is not None:
         case["spelling"] = list(spell)
     ref = "::".join("@" + json.dumps(sym_str(x, spell), ensure_ascii=True) for x in names) if spell is not None \
         else "@" + "::@".join(sym_str(x) for x in names)
+    after = f" after {len(edits)} edit(s) of a module an earlier collection had looked at" if edits else ""
     ctx.fail(site, sig, case,
-             f"{site.rsplit('.', 1)[1]} from op at path {path_str(tuple(path))} with {ref} gave op `{got}`, "
+             f"{site.rsplit('.', 1)[1]} from op at path {path_str(tuple(path))} with {ref}{after} gave op `{got}`, "
              f"the nesting rules designate `{want}` ({sig})", got, want)
 
 
-def render(root: Node, spell: Any = None) -> str:
+def render(root: Node, spell: Any = None, edits: list[Any] | None = None) -> str:
     try:
-        impl = Impl(Node.from_json(root.to_json()), spell)
-        return str(impl.root.op)
+        return str(history(root, spell, edits).root.op)
     except Exception as e:  # noqa: BLE001
         return f"<unprintable: {core.exc_name(e)}>"
 
@@ -859,7 +1167,7 @@ def run(ctx: core.Ctx) -> None:
     ctx.lean()
     quick = ctx.tier == "quick"
     batch = Batch()
-    refs = small_refs()
+    refs, erefs = small_refs(), edit_refs()
     # 1. exhaustive small scope (smallest trees first: the first failure of a class is a minimal one)
     max_nodes = 3 if quick else 4
     complete = 0
@@ -884,15 +1192,29 @@ def run(ctx: core.Ctx) -> None:
                 respell = []
             for sp in respell:
                 run_tree(ctx, batch, Node.from_json(root.to_json()), refs, f"small{k}", spell=sp)
+            # edit histories: every single edit of the trees with ≤2 operations, one seeded edit of a
+            # seed-rotated share of the 3-operation trees (quick: a twelfth, thorough: all)
+            if k <= 2:
+                hist = [[e] for e in small_edits(Node.from_json(root.to_json()))]
+            elif k == 3 and (not quick or idx % 12 == rot % 12):
+                hist = [random_history(ctx.rng, Node.from_json(root.to_json()), 2, 1)]
+            else:
+                hist = []
+            for h in hist:
+                if h:
+                    run_tree(ctx, batch, Node.from_json(root.to_json()), erefs, f"small{k}", edits=h, skip_first=True)
             if len(batch.lines) > 150_000:
                 flush(ctx, batch)
         if not finished:
             break
         complete = k
+    for root in corpus():
+        run_tree(ctx, batch, root, refs, "corpus")
     flush(ctx, batch)
     ctx.exhaustive = complete >= 3
     ctx.extra["exhaustive_scope"] = (
-        f"all ordered trees with ≤{min(complete, 3)} operations over {len(SMALL_LABELS)} labels"
+        f"all ordered trees with ≤{min(complete, 3)} operations over {len(SMALL_LABELS) - 1} labels (with ≤2 "
+        f"operations: {len(SMALL_LABELS)} labels, an unregistered op among them; these also after every single edit)"
         + (f" and all with 4 operations over {len(SMALL_LABELS_4)} labels" if complete >= 4 else "")
         + f" × all start operations × {len(refs)} references (flat in 3 forms, depth 1 over 3 names, depth 2 over "
         "2 names; from start operations without enclosing table only depth ≤1), names spelled s0/s1/s2; the trees "
@@ -912,7 +1234,9 @@ def run(ctx: core.Ctx) -> None:
         rrefs = random_refs(ctx.rng, nodes, pool, 14 if quick else 24)
         starts = nodes if len(nodes) <= 24 else ctx.rng.sample(nodes, 24)
         spell = random_spelling(ctx.rng, pool + 1) if ctx.rng.random() < 0.5 else None
-        run_tree(ctx, batch, root, rrefs, "random", starts, spell)
+        edits = random_history(ctx.rng, Node.from_json(root.to_json()), pool, ctx.rng.choice([1, 1, 2])) \
+            if ctx.rng.random() < (0.35 if quick else 0.8) else []
+        run_tree(ctx, batch, root, rrefs, "random", starts, spell, edits)
         done += 1
         if done <= 2:
             ctx.sample({"tree_text": render(root, spell), "refs": [[f, ns] for f, ns in rrefs[:6]],
@@ -927,7 +1251,16 @@ def replay(ctx: core.Ctx, body: dict) -> int:
     case = body["case"]
     root = Node.from_json(case["tree"])
     spell = case.get("spelling")
-    impl = Impl(root, spell)
+    edits = case.get("edits") or []
+    if edits:
+        print(Impl(Node.from_json(case["tree"]), spell).root.op)
+        print("an earlier SymbolTableCollection (and the static lookups) resolve every name from every operation; "
+              "then, on the same operations:")
+        for e in edits:
+            print("  edit:", json.dumps(e))
+        print("the module as it is now, asked through NEW collections:")
+    impl = history(root, spell, edits)
+    root = impl.root
     print(impl.root.op)
     if spell is not None:
         print("names spelled :", {i: sym_str(i, spell) for i in range(len(spell))})
